@@ -180,7 +180,7 @@ def main(argv=None):
         # ---- classify proof results against the lock
         refuted = [g for n, g in groups.items() if g["verdict"] == "refuted" and n in lock]
         # a frame / ownership obligation that did not exist on the unchanged tree (the code now writes a location it did not write before) must hold as well
-        new_frame = [g for n, g in groups.items() if n not in lock and g["kind"] in ("frame", "frame-owner") and g["verdict"] != "discharged" and lock]
+        new_frame = [g for n, g in groups.items() if n not in lock and g["kind"] in ("frame", "frame-owner", "effect") and g["verdict"] != "discharged" and lock]
         refuted += [g for g in new_frame if g["verdict"] == "refuted"]
         open_locked_extra = [g for g in new_frame if g["verdict"] == "undecided"]
         new_refuted = [g for n, g in groups.items() if g["verdict"] == "refuted" and n not in lock and g not in refuted]
